@@ -109,6 +109,8 @@ else:
             print(c, "->", "DETECTED" if rc == 1 and viol else "MISSED", info.get("clause"), info.get("obligations_failed"))
     finally:
         sh("git -C /repo checkout -- .")
+        # the evidence files just written describe the MUTATED tree: put the committed ones back
+        sh("git -C /verif checkout -- " + " ".join("evidence/%s.json" % c for c in checks))
 meta["checks"] = results
 meta["readme"] = readme
 out = "/verif/seeded/%s-%s%s" % (prop, (tag + "-") if tag else "", n)
